@@ -1934,6 +1934,9 @@ static void scenario(const char *name, uint64_t seed)
         pause_any(0);
     }
     g_joining = 1;
+    /* now and then hold a scheduler back between its reads of "pool empty" and the blocked counter */
+    if (g_nes > 1 && rnd(3) == 0)
+        abtv_watch_load(&ABTI_pool_get_ptr(g_pool[1 + rnd(g_nes - 1)][0])->num_blocked, 40 + rnd(300), 200);
     for (int e = 1; e < g_nes; e++) {
         /* units whose pool only stream e schedules */
         char buf[128];
